@@ -21,7 +21,8 @@ GEN_DEPS = ["GenC09Hem", "GenC09Vg", "GenC09Merton", "GenC09Trunc"]
 RULE = ("oracle cases: (model, parameters, interval kind, n, route) with models HEM/Merton/VG/CGMY (fixed + random parameters, "
         "CGMY y in {-0.5,0,0.3,1,1.5,random}), 14 interval kinds (pos, neg, straddle, touching 0, half-lines, whole line, points), "
         "n = 0..5 through integrate/_x/_xx and integrate_against_xn, truncations; non-trivial = the integral is finite and the "
-        "interval is not a point; Coq cases: interval-arithmetic lemmas per (model, closed form, branch)")
+        "interval is not a point; infinite integrals must be reported as +-inf; CGMY y = {0,1} +- 1e-3..1e-8 with relative tolerance 1e-6; "
+        "Coq cases: interval-arithmetic lemmas per (model, closed form, branch), per density, and CGMY formula-vs-code-value")
 MODELLED = [
     "tools/integral.py (_helper_sum_fact_xk numpy dot, nested helper), VG integrate_against_xn, LevyMeasure.integrate_against_xn "
     "dispatch, TruncatedLevyMeasure.integrate*, CGMY tails: hand models in Model/LevyClosedForms.v tied by interval case lemmas",
@@ -35,16 +36,23 @@ MODELLED = [
 ASSUMPTIONS = ["parameters in their declared domain (eta1, eta2, sigma_j, lambda+-, G, M > 0; 0 <= p <= 1; intensity >= 0)",
                "finite end points are strictly inside (-INF, INF) where INF stands for the float infinity"]
 THEOREM_NOTES = {
+    "count": "33 statements: 5 complete (HEM), 12 named _partial, 9 corollaries/instances, 3 _refuted about the code BEFORE earlier fix: commits, "
+             "4 bookkeeping (C09_vg_x_nu, C09_hem_unroll_complete, C09_special_function_models, C09_vg_mass_infinite)",
     "C09_hem_mass/_x/_xx/_left_halfline/_right_halfline": "complete for HEM: every parameter set, every finite a <= b on either side of 0 or straddling, "
         "half-line values as limits of the finite integrals",
     "C09_xn_exp_partial": "every n and every finite a <= b; the half-line branches (a = -inf, b = +inf) of integral_xn_exp_minus_x are modelled "
         "(integral_xn_exp_left/right) but not proved as limits; oracle only",
-    "C09_vg_*_partial": "finite end points (mass: one side of zero, where it is finite); half-line values (exp(-inf) = 0, exp1(x) alone) oracle only",
+    "C09_vg_*_partial": "finite end points (mass: one side of zero, where it is finite; C09_vg_mass_infinite: +inf is returned when 0 is in the closed "
+        "interval); half-line values (exp(-inf) = 0, exp1(x) alone) oracle only",
     "C09_merton_*_partial": "finite end points; erf(+-inf) = +-1 needs the Gaussian integral (not in Coquelicot): half-lines oracle only",
-    "C09_cgmy_*_partial": "0 < a <= b or a <= b < 0; mass for y not in {0,1} (code path y < 1), first moment for y <> 1; y in {0,1} (exp1), the y >= 1 "
-        "recursion, end points at 0 (the y < 0 fix), integrate_against_xx (scipy.quad) are covered by the oracle only",
-    "C09_additive / C09_sign / C09_truncated": "generic in the closed form: hold for every F with is_RInt (x^n nu) a b (F a b); instantiated for HEM, "
-        "x^n exp, VG n-th moments, Merton; these are the `Section Measure` hypotheses (mass_add, mass_pos) of C01/C03/C04",
+    "C09_cgmy_*_partial": "0 < a <= b or a <= b < 0, every y < 2, stated on cgmy_tail_code / cgmy_tail_x_code = the branch structure the code executes "
+        "(y = 0 and y = 1 through exp1, y >= 1 through one recursion step, otherwise the incomplete-gamma form). Not covered: end points at 0, "
+        "straddling with y < 0, integrate_against_xx (gammainc / scipy.quad), half-lines, and FLOAT conditioning: near y = 0 and y = 1 the code "
+        "loses all accuracy although the real formulas are exact (finding F-C09-7, oracle `_near_singular`)",
+    "C09_additive / C09_sign": "generic in the closed form: hold for every F with is_RInt (x^n nu) a b (F a b); instantiated for HEM, x^n exp, VG n-th "
+        "moments, Merton (no CGMY instance); these are the `Section Measure` hypotheses (mass_add, mass_pos) of C01/C03/C04",
+    "C09_truncated": "the closed form has to be valid only on the CLIPPED interval [max a l, min b r] (pair predicate P), so l < 0 < r is allowed for "
+        "infinite-activity masses: instance C09_truncated_vg_mass; C09_truncated_hem is the end-point-domain instance",
     "C09_xn_exp_refuted / C09_base_xn0_refuted / C09_vg_xn_refuted": "witnesses about the code BEFORE the fix: commits (models *_old); findings F-C09-1/2/3",
     "generic quadrature fallbacks (n >= 3 for HEM/Merton/CGMY, CGMY second moment)": "no theorem: scipy.integrate.quad is modelled by its specification only",
 }
@@ -89,7 +97,7 @@ def _check_one(res, kind, params, nu, a, b, n, via, ikind, trunc=None):
     res.bump("oracle_interval_kind", ikind)
     res.bump("oracle_n", n)
     if not finite:
-        res.count(case, nontrivial=False, kind=f"oracle {kind} (infinite integral: skipped)")
+        _check_infinite(res, kind, params, nu, a, b, n, via, case, trunc)
         return
     extra = tuple(trunc) if trunc else ()
     ref = L.quad_xn_nu(nu, a, b, n, extra=extra)
@@ -123,6 +131,84 @@ def _check_one(res, kind, params, nu, a, b, n, via, ikind, trunc=None):
         res.violation(f"{kind}{' (truncated)' if trunc else ''}: closed-form integral of x^{n} nu differs from the quadrature of the "
                       f"model's own density (route {via})", rep)
     return val
+
+
+def _check_infinite(res, kind, params, nu, a, b, n, via, case, trunc):
+    """the integral of |x|^n nu over [a,b] is infinite (infinite activity / variation, zero in the closed interval):
+    the mass must be reported as +inf; a first moment over an interval with ONE end point at zero as +inf / -inf.
+    (odd moments over an interval that straddles zero are inf - inf: nothing is asserted)"""
+    ca, cb = _clip(a, b, trunc) if trunc else (a, b)
+    if n == 0:
+        want = INF
+    elif n == 1 and (ca == 0 or cb == 0) and not (ca < 0 < cb):
+        want = INF if ca >= 0 else -INF
+    else:
+        res.count(case, nontrivial=False, kind=f"oracle {kind} (undefined integral: skipped)")
+        return
+    res.count(case, nontrivial=True, kind=f"oracle {kind} infinite integral must be reported as {want}")
+    rep = dict(kind="infinite", model=kind, params=params, a=a, b=b, n=n, via=via, truncations=list(trunc) if trunc else None, expected=str(want),
+               finding="F-C09-8" if n == 0 else "F-C09-9")
+    try:
+        val = float(L.call_integral(nu, a, b, n, via))
+    except Exception as e:  # noqa
+        rep["raised"] = f"{type(e).__name__}: {e}"
+        res.violation(f"{kind}: integral of x^{n} nu over an interval where it is infinite raises {type(e).__name__} instead of returning {want}", rep)
+        return
+    if val != want:
+        rep["got"] = val
+        res.violation(f"{kind}: integral of x^{n} nu over an interval where it is infinite is reported as a finite / wrong-signed / nan value", rep)
+
+
+def _near_singular(res, rng):
+    """CGMY closed forms for an activity index within 1e-3 .. 1e-8 of the removable singularities y = 0 and y = 1
+    (division by alpha, by alpha - 1, and the recursion entered with alpha - 1 ~ 0): relative tolerance 1e-6."""
+    cfg = _cfg(res)
+    deltas = [1e-3, 1e-4, 1e-5, 1e-6, 1e-7, 1e-8]
+    for y0 in (0.0, 1.0):
+        for d in deltas:
+            for sgn in (1, -1):
+                y = y0 + sgn * d
+                params = dict(c=L.rnd(rng, 0.3, 2), g=L.rnd(rng, 2, 8, 1), m=L.rnd(rng, 2, 8, 1), y=y)
+                _, nu = L.build("cgmy", params)
+                x0 = rng.choice([0.1, 0.25, 0.5, 1.0])
+                ivs = [(x0, x0 + 1e-7), (x0, x0 + 0.4), (-x0 - 0.4, -x0), (x0, INF)][: (4 if cfg is THOROUGH else 3)]
+                for (a, b) in ivs:
+                    for n in (0, 1):
+                        ref = L.quad_xn_nu(nu, a, b, n)
+                        case = ("near", y0, sgn * d, a, b, n, tuple(sorted(params.items())))
+                        res.count(case, kind="oracle cgmy near y=0 / y=1")
+                        res.bump("near_singular_delta", f"{d:.0e}")
+                        u = params["m"] if a > 0 else params["g"]
+                        h = min(abs(a), abs(b))
+                        scale = params["c"] * math.exp(-u * h) / h ** (y + 1 - n)
+                        rep = dict(kind="integral", model="cgmy", params=params, a=a, b=b, n=n, via="direct", truncations=None,
+                                   expected_quadrature=ref, finding="F-C09-7", delta=d, near=y0, cancellation_scale=scale)
+                        try:
+                            val = float(L.call_integral(nu, a, b, n, "direct"))
+                        except Exception as e:  # noqa
+                            rep["raised"] = f"{type(e).__name__}: {e}"
+                            res.violation("cgmy near y in {0,1}: closed form raises", rep)
+                            continue
+                        if not L.close(val, ref, rel=1e-6, ab=0.0):
+                            rep["got"] = val
+                            res.violation(f"cgmy: closed-form integral of x^{n} nu loses accuracy (relative error > 1e-6, possibly the sign) "
+                                          f"for an activity index within {d:.0e} of {y0:g}", rep)
+
+
+def matches_known(v, known):
+    """a recorded finding explains only the failures it predicts"""
+    r = v["replay"]
+    if known["id"] == "F-C09-7":
+        # float cancellation at the removable singularities y = 0 / y = 1 of the CGMY closed forms: the error is bounded by a few
+        # ulps of the cancelling terms divided by the distance to the singularity; anything larger is something else
+        if r.get("model") != "cgmy" or "got" not in r or r.get("truncations"):
+            return False
+        y = r["params"]["y"]
+        d = min(abs(y), abs(y - 1.0))
+        if not (0 < d <= 1e-2):
+            return False
+        return abs(r["got"] - r["expected_quadrature"]) <= 2e-13 / d * max(r.get("cancellation_scale", 0.0), 1e-300)
+    return False
 
 
 def _clip(a, b, trunc):
@@ -231,6 +317,7 @@ def _oracle(res, rng):
                 if not L.close(val, ref, ab=1e-10 + _cancel_tol(n, alpha)):
                     rep["got"] = val
                     res.violation("integral_xn_exp_minus_x differs from the quadrature of x^n exp(-alpha|x|)", rep)
+
 
 
 # ============================================================================================ Coq correspondence
@@ -391,27 +478,117 @@ def _lits(params, keys):
     return " ".join(rlit(params[k]) for k in keys)
 
 
+def _act(y):
+    return "y<0" if y < 0 else ("y=0" if y == 0 else ("0<y<1" if y < 1 else ("y=1" if y == 1 else "1<y<2")))
+
+
 def _cgmy_cases(res, rng, per_group):
-    """one side of zero, activity index in the branches the model covers: mass y < 1, y <> 0; first moment y <> 1"""
+    """one side of zero, EVERY activity branch the code has (y<0, y=0, 0<y<1, y=1, 1<y<2), on the model of the executed branch
+    structure (cgmy_mass_*_code / cgmy_x_*_code with exp1 := E1c 0, gamma*gammaincc := Gupc 0)"""
     cases = []
     for kindk in ("pos", "neg"):
-        for _ in range(2 * per_group):
+        for y in [-0.5, 0.0, 0.3, 1.0, 1.5] + [rng.choice([L.rnd(rng, -1.5, -0.05), L.rnd(rng, 0.05, 0.95), L.rnd(rng, 1.05, 1.9)])
+                                              for _ in range(max(1, per_group - 2))]:
+            for n in (0, 1):
+                params = L.cgmy_params(rng, y=y)
+                _, nu = L.build("cgmy", params)
+                a, b = L.interval(rng, kindk)
+                v = float(L.call_integral(nu, a, b, n, "direct"))
+                u = params["m"] if kindk == "pos" else params["g"]
+                f = ["cgmy_mass", "cgmy_x"][n] + ("_pos_code" if kindk == "pos" else "_neg_code")
+                fpos = ["cgmy_mass", "cgmy_x"][n] + "_pos_code"
+                stmt = (f"Rabs ({f} (E1c 0) (Gupc 0) {rlit(params['c'])} {rlit(u)} {rlit(y)} {rlit(a)} {rlit(b)} - {rlit(v)}) "
+                        f"<= {tol_lit(v)[0]}")
+                rw = "" if kindk == "pos" else f"rewrite {f.replace('_pos_code', '_neg_code')}_as_pos. "
+                if n == 0:
+                    if y == 0:
+                        rw += f"rewrite cgmy_mass_pos_code_y0 by lra. unfold e1f. {G80}"
+                    elif y == 1:
+                        rw += f"rewrite cgmy_mass_pos_code_y1 by lra. unfold e1f. {G80}"
+                    elif y < 1:
+                        rw += f"rewrite cgmy_mass_pos_code_lt1 by lra. rewrite cgmy_integrate_pos_as_RInt by lra. unfold igf. {G80}"
+                    else:
+                        rw += f"rewrite cgmy_mass_pos_code_rec by lra. rewrite cgmy_integrate_pos_as_RInt by lra. unfold igf. {G80}"
+                else:
+                    if y == 1:
+                        rw += f"rewrite cgmy_x_pos_code_y1 by lra. unfold e1f. {G80}"
+                    else:
+                        rw += f"rewrite cgmy_x_pos_code_ne1 by lra. rewrite cgmy_integrate_x_pos_as_RInt by lra. unfold igf. {G80}"
+                cases.append(Case(("cgmy", n, kindk, y), stmt, rw, dict(model="cgmy", params=params, a=a, b=b, n=n, impl=v)))
+                res.count(("coq-cgmy", tuple(sorted(params.items())), a, b, n), kind="coq cgmy")
+                res.bump("coq_cgmy_activity", _act(y))
+    return cases
+
+
+def _cgmy_value_cases(res, rng, per_group):
+    """the model's FORMULA against the code's closed-form VALUE: cgmy_tail / cgmy_tail_x are unfolded and evaluated by interval
+    arithmetic with the two special-function values gamma(2-y)*gammaincc(2-y, u h) the code computes fed in as data
+    (no rewriting through the theorem, no integral): a different-but-equal formula in the model would not pass"""
+    import scipy.special as sp
+    cases = []
+    for kindk in ("pos", "neg"):
+        for _ in range(per_group):
             n = rng.randrange(2)
-            ys = [-0.5, 0.3, rng.choice([L.rnd(rng, -1.5, -0.05), L.rnd(rng, 0.05, 0.95)])] + ([1.5, 0.0, L.rnd(rng, 1.05, 1.9)] if n == 1 else [])
-            params = L.cgmy_params(rng, y=rng.choice(ys))
+            y = rng.choice([-0.5, 0.3, L.rnd(rng, -1.5, -0.05), L.rnd(rng, 0.05, 0.95)] + ([1.5, L.rnd(rng, 1.05, 1.9)] if n == 1 else []))
+            params = L.cgmy_params(rng, y=y)
             _, nu = L.build("cgmy", params)
             a, b = L.interval(rng, kindk)
             v = float(L.call_integral(nu, a, b, n, "direct"))
             u = params["m"] if kindk == "pos" else params["g"]
-            args = f"(Gupc 0) {rlit(params['c'])} {rlit(u)} {rlit(params['y'])} {rlit(a)} {rlit(b)}"
+            h1, h2 = (a, b) if kindk == "pos" else (-b, -a)      # the two h values, in the order of the _pos form
+            gv = [float(sp.gamma(2 - y) * sp.gammaincc(2 - y, u * h)) for h in (h1, h2)]
             f = ["cgmy_integrate", "cgmy_integrate_x"][n] + ("_pos" if kindk == "pos" else "_neg")
-            stmt = f"Rabs ({f} {args} - {rlit(v)}) <= {tol_lit(v)[0]}"
-            base = ["cgmy_integrate_pos_as_RInt", "cgmy_integrate_x_pos_as_RInt"][n]
-            rw = f"rewrite {base} by lra." if kindk == "pos" else f"rewrite {f}_as_pos, {base} by lra."
-            cases.append(Case(("cgmy", n, kindk, params["y"]), stmt, f"{rw} unfold igf. {G80}",
-                              dict(model="cgmy", params=params, a=a, b=b, n=n, impl=v)))
-            res.count(("coq-cgmy", tuple(sorted(params.items())), a, b, n), kind="coq cgmy")
-            res.bump("coq_cgmy_activity", "y<0" if params["y"] < 0 else ("y=0" if params["y"] == 0 else ("0<y<1" if params["y"] < 1 else "1<y<2")))
+            hl = [rlit(a), rlit(b)] if kindk == "pos" else [f"(- {rlit(b)})", f"(- {rlit(a)})"]
+            stmt = (f"forall G : R -> R -> R, G (2 - {rlit(y)}) ({rlit(u)} * {hl[0]}) = {rlit(gv[0])} -> "
+                    f"G (2 - {rlit(y)}) ({rlit(u)} * {hl[1]}) = {rlit(gv[1])} -> "
+                    f"Rabs ({f} G {rlit(params['c'])} {rlit(u)} {rlit(y)} {rlit(a)} {rlit(b)} - {rlit(v)}) <= {tol_lit(v, rel=1e-8)[0]}")
+            proof = (f"intros G HG1 HG2. unfold {f}, cgmy_tail, cgmy_tail_x. cbv beta iota zeta. rewrite HG1, HG2. {I80}")
+            cases.append(Case(("cgmy-value", n, kindk, y), stmt, proof, dict(model="cgmy", params=params, a=a, b=b, n=n, impl=v, gammas=gv)))
+            res.count(("coq-cgmy-value", tuple(sorted(params.items())), a, b, n), kind="coq cgmy formula vs code value")
+    return cases
+
+
+def _density_cases(res, rng, per_group):
+    """the model densities against the implementation's __call__ (HEM, VG, Merton generated; CGMY hand-written; truncated)"""
+    from rpylib.model.levymodel.levymodel import TruncatedLevyMeasure
+    cases = []
+    for kind in ("hem", "vg", "merton", "cgmy", "trunc"):
+        for _ in range(per_group):
+            x = rng.choice([-1, 1]) * L._pt(rng)
+            if kind == "trunc":
+                params = L.hem_params(rng)
+                _, base = L.build("hem", params)
+                l, r = -L._pt(rng), L._pt(rng)
+                nu = TruncatedLevyMeasure(base, (l, r))
+                v = float(nu(x))
+                args = _lits(params, ("intensity", "p", "eta1", "eta2"))
+                stmt = f"Rabs (truncated_nu (hem_nu {args}) {rlit(l)} {rlit(r)} {rlit(x)} - {rlit(v)}) <= {tol_lit(v)[0]}"
+                if l <= x <= r:
+                    proof = f"rewrite truncated_nu_inside by lra. rewrite hem_nu_{'pos' if x > 0 else 'neg'} by lra. {I80}"
+                else:
+                    proof = f"rewrite truncated_nu_outside by lra. {I80}"
+                info = dict(model="truncated hem", params=params, truncations=[l, r], x=x, impl=v)
+            else:
+                params = dict(hem=L.hem_params, vg=L.vg_params, merton=L.merton_params, cgmy=L.cgmy_params)[kind](rng)
+                _, nu = L.build(kind, params)
+                v = float(nu(x))
+                side = "pos" if x > 0 else "neg"
+                if kind == "hem":
+                    stmt = f"Rabs (hem_nu {_lits(params, ('intensity', 'p', 'eta1', 'eta2'))} {rlit(x)} - {rlit(v)}) <= {tol_lit(v)[0]}"
+                    proof = f"rewrite hem_nu_{side} by lra. {I80}"
+                elif kind == "vg":
+                    c, lm, lp = (float(getattr(nu.parameters, k)) for k in ("_c", "_lambda_m", "_lambda_p"))
+                    stmt = f"Rabs (vg_nu {rlit(c)} {rlit(lm)} {rlit(lp)} {rlit(x)} - {rlit(v)}) <= {tol_lit(v)[0]}"
+                    proof = f"rewrite vg_nu_{side} by lra. {I80}"
+                elif kind == "merton":
+                    stmt = f"Rabs (merton_nu {_lits(params, ('intensity', 'mu_j', 'sigma_j'))} {rlit(x)} - {rlit(v)}) <= {tol_lit(v)[0]}"
+                    proof = f"unfold merton_nu. {I80}"
+                else:
+                    stmt = f"Rabs (cgmy_nu {_lits(params, ('c', 'g', 'm', 'y'))} {rlit(x)} - {rlit(v)}) <= {tol_lit(v)[0]}"
+                    proof = f"rewrite cgmy_nu_{side} by lra. {I80}"
+                info = dict(model=kind, params=params, x=x, impl=v)
+            cases.append(Case(("density", kind, x), stmt, proof, info))
+            res.count(("coq-density", kind, json.dumps(info, sort_keys=True, default=str)), kind=f"coq density {kind}")
     return cases
 
 
@@ -453,7 +630,8 @@ def _coq(res, rng):
     cfg = _cfg(res)
     k = cfg["coq_per_group"]
     cases = (_hem_cases(res, rng, k) + _trunc_cases(res, rng, k) + _xn_exp_cases(res, rng, max(2, k // 2)) + _vg_cases(res, rng, max(2, k // 2))
-             + _merton_cases(res, rng, max(2, k // 2)) + _cgmy_cases(res, rng, max(2, k // 2)) + _truncated_hem_cases(res, rng, max(2, k // 2)))
+             + _merton_cases(res, rng, max(2, k // 2)) + _cgmy_cases(res, rng, max(3, k // 4)) + _cgmy_value_cases(res, rng, max(3, k // 2))
+             + _density_cases(res, rng, max(2, k // 3)) + _truncated_hem_cases(res, rng, max(2, k // 2)))
     hdr = HEADER
     nfiles, failed = L.run_cases(PROP, "cases", hdr, cases, jobs=12, timeout=600)
     res.case_lemmas += len(cases)
@@ -468,6 +646,7 @@ def correspond(res):
     warnings.filterwarnings("ignore")
     rng = random.Random(res.seed)
     _oracle(res, rng)
+    _near_singular(res, random.Random(res.seed + 3))
     _coq(res, random.Random(res.seed + 1))
 
 
@@ -516,15 +695,17 @@ def replay(path):
     return 1
 
 
-LEVEL_TEXT = ("Proof (partial): 31 Coq theorems over R (Coquelicot). For the HEM model the mass, first and second moment closed forms - "
+LEVEL_TEXT = ("Proof (partial): 33 Coq statements over R (Coquelicot), of which 5 are complete (HEM) and 12 are named _partial. For the HEM model the mass, first and second moment closed forms - "
               "re-translated from hem.py by py2coq on every run - are proved to be the Riemann integral of x^n times the generated density for all "
               "parameters and all finite a <= b (either side of zero or straddling), with the half-line values as limits; the integral of "
               "x^n exp(-alpha|x|) is proved for every n by induction; VG (first/second/n-th moments, mass through the exponential integral), "
-              "Merton (through erf by substitution) and CGMY (one side of zero, incomplete-gamma branch) are proved for finite end points only "
-              "(theorems named _partial). Additivity over adjacent intervals, the sign rules and the truncated-measure clause are proved once for "
+              "Merton (through erf by substitution) and CGMY (one side of zero, every y < 2 on the branch structure the code executes) are "
+              "proved for finite end points only (theorems named _partial). Additivity over adjacent intervals, the sign rules and the truncated-measure clause are proved once for "
               "every closed form that is an integral of x^n nu and instantiated per model. The tie to the source is the translator plus "
-              "~140 (quick) / ~1300 (thorough) interval-arithmetic case lemmas comparing the Coq closed forms with the implementation's floats. "
-              "Improper integrals for VG/Merton/CGMY, CGMY y in {0,1}, y >= 1 and every scipy.quad fallback are checked only by the mpmath oracle.")
+              "~170 (quick) / ~1200 (thorough) interval-arithmetic case lemmas comparing the Coq closed forms AND the model densities with the "
+              "implementation's floats (for CGMY also the unfolded formula against the code's value with the special-function values as data). "
+              "Improper integrals for VG/Merton/CGMY, end points at zero, every scipy.quad fallback, the reporting of infinite integrals as +-inf and "
+              "the float conditioning near y = 0 / y = 1 (known finding F-C09-7) are checked only by the mpmath oracle.")
 LEVEL_NOTE = ("Trusted: Coq kernel + vm_compute (Interval's reflexive checker), standard real/classical axioms (reported by Print Assumptions), "
               "py2coq (fail-closed), float infinity modelled as a real parameter INF, exp(-inf)=0/erf(inf)=1 float semantics, scipy special "
               "functions modelled by their defining integrals and tied by `integral` case lemmas, scipy.quad modelled by specification.")
